@@ -1120,7 +1120,7 @@ func (m c18) Run(c *core.Ctx) {
 			}
 			continue
 		}
-		if strings.HasPrefix(s.id, "x:amplify") || s.id == "x:deepnest" {
+		if strings.HasPrefix(s.id, "x:amplify") || s.id == "x:deepnest" || s.id == "x:deepnest-claim" {
 			// every decode of these allocates tens of MiB: the unmutated input and its truncations are the point
 			if part() {
 				r.do("seed", s, "seed", s.data)
